@@ -44,6 +44,8 @@ type Engine struct {
 	concreteVec  []uint64
 	maxWitness   int
 	pinMode      bool
+	noModelReuse bool
+	noBatch      bool
 	verbose      bool
 }
 
@@ -200,13 +202,20 @@ func cmdCheck(argv []string) int {
 	pin := fs.Bool("pin", false, "with -concrete: pin via equalities on symbolic variables (exercises the SMT encoding) instead of constants")
 	verbose := fs.Bool("v", false, "verbose")
 	maxWitness := fs.Int("witnesses", 8, "number of path witnesses (model of a completed path) to emit per harness")
+	noReuse := fs.Bool("nomodelreuse", false, "disable deciding feasibility from the last model")
+	noBatch := fs.Bool("nobatch", false, "decide every obligation with its own query")
+	slow := fs.Int64("slowlog", 0, "log queries slower than this many ms")
 	fs.Parse(argv)
+	slowLogMs = *slow
+	defer func() {}()
 
 	debug.SetGCPercent(200)
 	t0 := time.Now()
 	eng := &Engine{solverKind: *solver, timeoutMs: *timeout, unwind: *unwind, workers: *workers, maxPaths: *maxPaths,
 		maxDecisions: *maxDec, logDir: *logDir, reverseMaps: *reverse, verbose: *verbose,
 		skipInit: map[string]bool{}, pkgByPath: map[string]*ssa.Package{}, maxWitness: *maxWitness}
+	eng.noModelReuse = *noReuse
+	eng.noBatch = *noBatch
 	eng.intrinsics = buildIntrinsics()
 
 	overlay := map[string][]byte{}
@@ -486,6 +495,7 @@ func (e *Engine) runPath(h *ssa.Function, hr *HarnessResult, sol *Solver, prefix
 			}
 		}()
 		p.execFunction(h, nil, nil)
+		p.flushObligations()
 	}()
 	if reason == "done" && e.concreteVec == nil {
 		p.makeWitness()
